@@ -241,6 +241,10 @@ def textured(shape, seed, chan=3, dtype="uint8"):
     a = 0.7 * a + 0.3 * g.uniform(0, 1, size=(h, w, chan))
     if dtype == "uint8":
         return (a * 255).astype(np.uint8)
+    if dtype == "uint16":
+        return (a * 65535).astype(np.uint16)
+    if dtype == "bool":
+        return a > 0.5
     return a.astype(dtype)
 
 
@@ -265,7 +269,7 @@ def build_correction(spec):
     k = spec["kind"]
     if k == "type":
         T = {"float": float, "float32": np.float32, "float64": np.float64, "uint8": np.uint8, "uint16": np.uint16,
-             "bool": bool}[spec["data_type"]]
+             "bool": bool, "int": int}[spec["data_type"]]
         return darsia.TypeCorrection(T)
     if k == "drift":
         base = scene(spec["shape"], spec["base"])
@@ -278,7 +282,12 @@ def build_correction(spec):
         if spec.get("active") is not None:
             cfg["active"] = spec["active"]
         b = darsia.Image(base, space_dim=2, scalar=False, dimensions=[1.0, 1.0]) if spec.get("base_form") == "image" else base
-        return darsia.DriftCorrection(b, cfg)
+        corr = darsia.DriftCorrection(b, cfg)
+        if spec.get("edit_config_after_ctor"):
+            cfg["active"] = not cfg.get("active", True)
+            cfg["padding"] = 0.1
+            cfg.pop("roi", None)
+        return corr
     if k == "curvature":
         kw = {}
         if spec.get("interpolation_order") is not None:
@@ -287,7 +296,16 @@ def build_correction(spec):
             kw["resize_factor"] = spec["resize_factor"]
         with warnings.catch_warnings():
             warnings.simplefilter("ignore")
-            return darsia.CurvatureCorrection(config=copy.deepcopy(spec["config"]), **kw)
+            own = copy.deepcopy(spec["config"])
+            corr = darsia.CurvatureCorrection(config=own, **kw)
+        if spec.get("edit_config_after_ctor"):
+            # the caller goes on using ITS dict (for the next correction): the constructed object is not affected
+            for v in own.values():
+                for kk in list(v):
+                    if isinstance(v[kk], float):
+                        v[kk] = v[kk] * 3.0 + 1e-4
+            own.pop("init", None)
+        return corr
     if k == "illumination":
         c = darsia.IlluminationCorrection()
         c.colorspace = spec["colorspace"]
@@ -305,7 +323,14 @@ def build_correction(spec):
         if spec.get("base") is not None:
             base = darsia.Image(textured(spec["shape"], spec["base"], dtype="float32"), space_dim=2, scalar=False,
                                 dimensions=[1.0, 1.0])
-        return darsia.ColorCorrection(base=base, config=cfg)
+        corr = darsia.ColorCorrection(base=base, config=cfg)
+        if spec.get("edit_config_after_ctor"):
+            # the caller re-uses ITS dict for another correction with other settings
+            cfg["whitebalancing"] = not cfg["whitebalancing"]
+            cfg["colorbalancing"] = "linear" if cfg["colorbalancing"] == "affine" else "affine"
+            cfg["clip"] = not cfg["clip"]
+            cfg["active"] = True
+        return corr
     raise HarnessError(k)
 
 
@@ -778,10 +803,17 @@ class C18Engine(Engine):
         return spec
 
     def _corr_spec(self, r):
+        spec = self._corr_spec0(r)
+        if spec["kind"] in ("drift", "curvature", "color") and r.random() < 0.5:
+            spec["edit_config_after_ctor"] = True
+        return spec
+
+    def _corr_spec0(self, r):
         k = r.choice(["type", "drift", "curvature", "illumination", "color"])
         if k == "type":
-            return {"kind": k, "data_type": r.choice(["float", "float32", "float64", "uint8", "uint16", "bool"]),
-                    "input": r.randint(0, 999), "input_dtype": r.choice(["uint8", "float64"]), "as_image": r.random() < 0.3}
+            return {"kind": k, "data_type": r.choice(["float", "float32", "float64", "uint8", "uint16", "bool", "float", "int"]),
+                    "input": r.randint(0, 999), "input_dtype": r.choice(["uint8", "float64", "float32", "uint16", "bool"]),
+                    "as_image": r.random() < 0.3}
         if k == "drift":
             shape = [r.choice([140, 160]), r.choice([160, 200])]
             spec = {"kind": k, "shape": shape, "base": r.randint(0, 999), "dx": r.randint(-3, 3), "dy": r.randint(-3, 3),
